@@ -583,6 +583,24 @@ def check_property(prop, tier, seed, replay=None):
                 results.append(fut.result())
             except (A.AssembleError, A.TokError) as e:
                 undecided.append('%s: %s' % (u, e))
+    # ---- bounded stand-in for the functions outside the verifier's reach (labelled bounded, never counted as proved; vf/bounded.py)
+    bounded = None
+    try:
+        import bounded as B
+        if prop in B.PROPS and os.environ.get('VERIF_BOUNDED', '1') != '0':
+            baseline = open(os.path.join(os.path.dirname(os.path.abspath(__file__)), 'BASELINE_COMMIT')).read().strip()
+            changed = B.files_changed(A.REPO, baseline)
+            if tier == 'thorough' or changed is None or changed:
+                bounded = B.run(A.REPO)
+                bounded['covered_files_changed_vs_baseline'] = changed
+            else:
+                bounded = dict(kind='bounded stand-in (never counted as proved)', status='not run in the quick tier: the covered files are byte-identical to commit %s, '
+                               'on which the stand-in passes (it is run whenever one of them differs, and always in the thorough tier)' % baseline[:7],
+                               items=[dict(item=k, props=v[0], stands_in_for=v[1], bound=v[2], result='not run') for k, v in B.ITEMS.items()], failures=[])
+            bounded['items'] = [it for it in bounded.get('items', []) if prop in it['props']]
+            bounded['failures'] = [f for f in bounded.get('failures', []) if prop in f['props']]
+    except Exception as e:   # the stand-in never changes a verdict by failing to run
+        bounded = dict(kind='bounded stand-in (never counted as proved)', status='could not run: %r' % (e,), items=[], failures=[])
     known = load_known()
     obligations = []
     failures = []
@@ -664,6 +682,7 @@ def check_property(prop, tier, seed, replay=None):
             flaky_not_reported=[dict(function=f['function'], label=f['label'], kind=f['kind']) for f in flaky],
             undecided=undecided,
             exhaustive=False,
+            bounded_standins=bounded,
         ),
         assumptions=TRUSTED_BASE + pinfo.get('assumptions', []),
         wall_s=round(time.time() - t0, 2),
@@ -676,6 +695,12 @@ def check_property(prop, tier, seed, replay=None):
     if undecided:
         for u in undecided:
             print('UNDECIDED property=%s reason=%s' % (prop, u))
+    for it in (bounded or {}).get('items', []):
+        if it.get('result') in ('ok', 'FAILED'):
+            print('BOUNDED-STANDIN property=%s item=%s result=%s %s' % (prop, it['item'], it['result'], '; '.join(it.get('messages', []))[:300]))
+    if bounded and bounded.get('status') not in (None, 'ok') and not bounded.get('status', '').startswith('not run') and (bounded.get('covered_files_changed_vs_baseline') or tier == 'thorough'):
+        print('UNDECIDED property=%s reason=bounded stand-in %s' % (prop, bounded['status'][:300]))
+        undecided.append('bounded stand-in: ' + bounded['status'][:300])
     # ------------------------------------------------ concrete witness (only after the verifier failed / could not decide on CHANGED code)
     any_changed = any(r2.changed for r in results for r2 in r['regions']) or any('lost anchor' in u or 'compile' in u or 'unclassified' in u for u in undecided)
     wit = None
@@ -706,6 +731,19 @@ def check_property(prop, tier, seed, replay=None):
             print('FAILING-INPUT property=%s item=%s case=%s level=%s functions=%s' % (prop, d['item'], d['case'], d.get('level'), d['functions']))
         tail = (' failing-input=%s/%s' % (rel[0]['item'], rel[0]['case'])) if rel else ' no-failing-input-found'
         print('VIOLATION property=%s replay=%s obligations=%d%s' % (prop, rp, len(real), tail))
+        return 1
+    if not real and bounded and bounded.get('failures'):
+        bf = bounded['failures']
+        h = hashlib.sha256(json.dumps([(f['item'], f['messages']) for f in bf], sort_keys=True).encode()).hexdigest()[:10]
+        rp = os.path.join(REPLAY, '%s_%s.json' % (prop, h))
+        with open(rp, 'w') as f:
+            json.dump(dict(property=prop, failed_obligations=[],
+                           decided_by='BOUNDED STAND-IN (not a proof): the functions below are outside the deductive verifier\'s reach; a direct test of the property on the '
+                                      'real code (bound stated per item) fails on the tree under check and passes on the baseline',
+                           bounded=bounded, how_to_replay='python3 vf/bounded.py <repo>   (' + str(bounded.get('command')) + ')'), f, indent=1)
+        for b in bf:
+            print('FAILING-INPUT property=%s item=bounded/%s %s' % (prop, b['item'], '; '.join(b['messages'])[:400]))
+        print('VIOLATION property=%s replay=%s obligations=0 failing-input=bounded/%s (function outside the verifier\'s reach: decided by the bounded stand-in, a direct test of the property on the real code)' % (prop, rp, bf[0]['item']))
         return 1
     if undecided and rel_verdict:
         # The ghost text no longer applies to the rewritten code, so the obligations could not be re-verified; but the code departs
